@@ -11,6 +11,7 @@ fn main() {
     let args = Args::parse();
     let prop = args.pos.first().cloned().unwrap_or_default();
     vcore::panics::install(!args.flag("loud"));
+    vcore::crash::arm_from_args(&args);
     let mut rep = Report::new(&prop.to_uppercase(), args.seed());
     match prop.as_str() {
         "c03" => c03::run(&args, &mut rep),
